@@ -7,6 +7,7 @@ import (
 	"go/constant"
 	"go/token"
 	"go/types"
+	"regexp"
 	"strings"
 
 	"golang.org/x/tools/go/ssa"
@@ -222,7 +223,7 @@ func (ds *describer) d(v ssa.Value, depth int) string {
 		}
 		return x.Value.ExactString()
 	case *ssa.Parameter:
-		return "param:" + x.Name()
+		return "param:" + paramRefName(x)
 	case *ssa.FreeVar:
 		if b := freeVarBinding(x); b != nil {
 			return ds.d(b, depth+1)
@@ -264,7 +265,19 @@ func (ds *describer) d(v ssa.Value, depth int) string {
 			if strings.HasPrefix(inner, "&") {
 				return inner[1:]
 			}
-			if a, ok := x.X.(*ssa.Alloc); ok {
+			base := x.X
+			for n := 0; n < 4; n++ {
+				fv, ok := base.(*ssa.FreeVar)
+				if !ok {
+					break
+				}
+				b := freeVarBinding(fv)
+				if b == nil {
+					break
+				}
+				base = b // a captured variable: the enclosing function's cell
+			}
+			if a, ok := base.(*ssa.Alloc); ok {
 				if sv := singleStore(a); sv != nil {
 					return ds.d(sv, depth+1)
 				}
@@ -383,6 +396,26 @@ func singleStore(a *ssa.Alloc) ssa.Value {
 		case *ssa.UnOp:
 			// load
 		case *ssa.DebugRef:
+		case *ssa.MakeClosure:
+			// captured by a closure: fine as long as the closure (and those it creates) only reads it
+			for i, b := range u.Bindings {
+				if b == ssa.Value(a) && !onlyRead(u.Fn.(*ssa.Function).FreeVars[i], 0) {
+					return nil
+				}
+			}
+		case *ssa.FieldAddr, *ssa.IndexAddr:
+			// a field or element of the variable is read (never written, never escaping)
+			for _, r2 := range *u.(ssa.Value).Referrers() {
+				switch l := r2.(type) {
+				case *ssa.UnOp:
+					if l.Op != token.MUL {
+						return nil
+					}
+				case *ssa.DebugRef:
+				default:
+					return nil
+				}
+			}
 		default:
 			return nil
 		}
@@ -391,6 +424,27 @@ func singleStore(a *ssa.Alloc) ssa.Value {
 		return val
 	}
 	return nil
+}
+
+// onlyRead: the captured cell fv is only loaded (or captured again by closures that only load it).
+func onlyRead(fv *ssa.FreeVar, depth int) bool {
+	if depth > 4 {
+		return false
+	}
+	for _, r := range *fv.Referrers() {
+		switch u := r.(type) {
+		case *ssa.UnOp, *ssa.DebugRef:
+		case *ssa.MakeClosure:
+			for i, b := range u.Bindings {
+				if b == ssa.Value(fv) && !onlyRead(u.Fn.(*ssa.Function).FreeVars[i], depth+1) {
+					return false
+				}
+			}
+		default:
+			return false
+		}
+	}
+	return true
 }
 
 // freeVarBinding resolves a free variable to the value bound at the (unique)
@@ -636,4 +690,81 @@ func indexedFields(v ssa.Value) map[string]bool {
 		}
 	}
 	return out
+}
+
+// paramRefName: the name of a parameter in the reference tree when the function exists there
+// with the same parameter types (a renamed parameter keeps its reference name in every
+// description, so that the rules do not depend on the spelling), else its own name.
+func paramRefName(p *ssa.Parameter) string {
+	fn := p.Parent()
+	if fn == nil || fn.Pkg == nil {
+		return p.Name()
+	}
+	if names, ok := paramRefMemo[fn]; ok {
+		for i, q := range fn.Params {
+			if q == p && i < len(names) && names[i] != "" {
+				return names[i]
+			}
+		}
+		return p.Name()
+	}
+	// outermost declared function, then the $n suffixes of the literal
+	top := fn
+	for top.Parent() != nil {
+		top = top.Parent()
+	}
+	key := fn.Pkg.Pkg.Path() + "."
+	if recv := top.Signature.Recv(); recv != nil {
+		t := recv.Type()
+		if pt, ok := t.(*types.Pointer); ok {
+			t = pt.Elem()
+		}
+		if nt, ok := t.(*types.Named); ok {
+			key += nt.Obj().Name() + "."
+		}
+	}
+	key += fn.Name() // go/ssa names literals parent$n
+	var names []string
+	ref := baselineParams[key]
+	if len(ref) == len(fn.Params) {
+		okTypes := true
+		qual := func(pk *types.Package) string {
+			if pk == fn.Pkg.Pkg {
+				return ""
+			}
+			return pk.Name()
+		}
+		for i, q := range fn.Params {
+			nm, ty, _ := strings.Cut(ref[i], " ")
+			if unqualify(types.TypeString(q.Type(), qual)) != unqualify(ty) {
+				okTypes = false
+			}
+			if nm == "_" {
+				nm = ""
+			}
+			names = append(names, nm)
+		}
+		if !okTypes {
+			names = nil
+		}
+	}
+	paramRefMemo[fn] = names
+	for i, q := range fn.Params {
+		if q == p && i < len(names) && names[i] != "" {
+			return names[i]
+		}
+	}
+	return p.Name()
+}
+
+var paramRefMemo = map[*ssa.Function][]string{}
+
+var qualifierRe = regexp.MustCompile(`[A-Za-z_][A-Za-z0-9_]*\.`)
+
+// unqualify drops package qualifiers from a type string (import aliases differ between the
+// source text and the type checker's rendering); "interface{}" and "any" are one type.
+func unqualify(t string) string {
+	t = qualifierRe.ReplaceAllString(t, "")
+	t = strings.ReplaceAll(t, "interface{}", "any")
+	return strings.ReplaceAll(t, " ", "")
 }
